@@ -596,6 +596,10 @@ func runRaceCase(run *ev.Run, fd *fakeDNS, port string, h2cPort string, cs raceC
 	useH2C := false
 	for _, o := range cs.Opts {
 		switch o {
+		case "bareclient":
+			// a client of the caller's own whose transport has no dialer set: the wrappers must fall
+			// back to the attacker's dialer (Client replaces everything, so it goes first)
+			opts = append([]func(*vegeta.Attacker){vegeta.Client(&http.Client{Transport: &http.Transport{MaxIdleConnsPerHost: 128}})}, opts...)
 		case "dns0":
 			opts = append(opts, vegeta.DNSCaching(0))
 		case "dnsttl":
@@ -670,6 +674,9 @@ func optionSubsets() [][]string {
 		}
 		if contains(s, "h2c") && (hasDNS || contains(s, "connect-to")) { // h2c on top of the wrapped dialer
 			out = append(out, append(without("h2c"), "h2c"))
+		}
+		if (hasDNS || contains(s, "connect-to")) && !contains(s, "h2c") && (!contains(s, "laddr") || !contains(s, "nokeepalive")) { // the same on a caller-supplied client
+			out = append(out, append([]string{"bareclient"}, s...))
 		}
 	}
 	return out
